@@ -10,12 +10,18 @@ def _sig(ops, io, mo, k):
 
 CFG = PropCfg(
     "C16", "HopModel.Props.C16",
-    [SuiteCfg("C16", kind="monitor", signature=_sig, timeout=3000,
+    [SuiteCfg("C16", kind="monitor", signature=_sig, timeout=3000, crash_batch=12,
               nontrivial=lambda seg, ver: sum(1 for l in seg if l.startswith("tr ")) >= 3)],
     rule="a case is one generated concurrent program (2-7 goroutines of Write/Read/Close/WaitForClose/Stop on both "
          "ends, 1-3 reliable or unreliable tubes, plus one goroutine per side that eventually calls Stop) run on two "
          "real muxers (Config.Timeout 1 s) joined by an in-memory MsgConn with a loss pattern (none, 10/30/60 %, "
-         "total, dead after k datagrams, one-way) and seeded yield points; 12 cases run concurrently. The observed "
+         "total, dead after k datagrams, one-way) and seeded yield points; 12 cases run concurrently. Programs also open "
+         "tubes while they run and close them 0-500 us later (Close racing with the initiation goroutine and the "
+         "peer's answer). One batch per run is the directed shape 'Stop (or the lastAck timer) with a backlog of "
+         "hundreds of unsent frames while a delay spike towards the writer ends': the held acknowledgements arrive "
+         "as a 1 ms-paced stream around the forced close, with the critical sections of the tube's lifecycle lock "
+         "stretched by the yield hook. A panic on any goroutine kills the harness: the batch that was running is "
+         "the replay. The observed "
          "trace - the verif transition log of every reliable tube, every call with result and global start/end "
          "order, calls that did not return within 45 s, the final tube states, goroutines above the baseline after "
          "both muxers stopped (polled for 20 s) - is judged line by line by the Lean driver: every logged "
